@@ -54,6 +54,9 @@ func VerifC02_Shapes() {
 		return
 	}
 	zzverif.Reach("accepted")
+	// C14: the text is a function of the model - a second call on the same model gives the same text
+	out2, err2 := TransformJSONProtoToDSL(m)
+	zzverif.Assert(err2 == nil && out2 == out, "same-text-on-every-call")
 	if !expr {
 		return
 	}
